@@ -60,6 +60,7 @@ type attemptRec struct {
 	dialErr     error
 	ref         RefResult
 	initialID   string
+	tooLong     bool // an event beyond the scanner's limit ended this connection (bufio.ErrTooLong)
 	cancelledAt int // delivered bytes when cancellation was seen by Read (-1: not)
 	endSeq      int // world sequence number when the next attempt started or Connect returned
 }
@@ -127,6 +128,7 @@ type clientWorld struct {
 	bodyBytes  []byte
 	maxAtt     int
 	bufSize    int
+	limit      int // effective maximum event size of the connection's scanner
 
 	ctx                         context.Context
 	cancel                      context.CancelFunc
@@ -360,7 +362,12 @@ func (w *clientWorld) generate() {
 		w.priorConns = ch.Range(1, 2, "earlier connections of the client")
 	}
 	if ch.Chance(1, 4, "connection buffer") {
-		w.bufSize = 1 << 17 // small limits are C20's territory (they cut streams short and would blur these oracles)
+		w.bufSize = 1 << 17
+		if ch.Chance(1, 3, "small connection buffer") {
+			// an event beyond the limit ends the connection with bufio.ErrTooLong: one more way for a
+			// connection to end, retried like any other
+			w.bufSize = 256
+		}
 	}
 }
 
@@ -872,6 +879,10 @@ func (w *clientWorld) build() {
 			w.o.probe("caller-supplied scanner buffer reused across attempts")
 		}
 		w.conn.Buffer(buf, w.bufSize)
+		w.limit = w.bufSize
+		if cap(buf) > w.limit {
+			w.limit = cap(buf) // bufio.Scanner.Buffer: the larger of max and cap(buf)
+		}
 	}
 	w.setupCallbacks()
 	sim.Spawn("connect", func() {
@@ -1137,18 +1148,42 @@ func (w *clientWorld) evaluate(res verifhook.Result, bubblePanic string) {
 			return
 		}
 		limit := defaultMaxEvent
-		if w.bufSize > limit {
-			limit = w.bufSize
+		if w.limit > 0 {
+			limit = w.limit
 		}
 		if whole := RefInterpret(a.stream, last, true); whole.MaxSpan >= limit-8 {
-			// an event that reaches the scanner's limit is rejected with ErrTooLong and what follows
-			// it is never parsed: that is C20's territory and would blur every oracle of this world
-			o.Inconclusive = true
-			o.probe("stream with an event at the buffer limit (left to C20)")
-			return
+			// A block beyond the scanner's limit ends the connection with bufio.ErrTooLong once the
+			// buffer is full; the complete blocks before it are delivered, nothing after it is parsed.
+			// Sizes within 8 bytes of the limit are left to C20.
+			cut, fuzzy, prev := -1, false, 0
+			spans := append(append([]int(nil), whole.BlockEnds...), len(a.stream))
+			for _, be := range spans {
+				if span := be - prev; span > limit+8 {
+					cut = prev
+					break
+				} else if span >= limit-8 {
+					fuzzy = true
+					break
+				}
+				prev = be
+			}
+			d := a.delivered - cut
+			if fuzzy || cut < 0 || (d >= limit-8 && d < limit) {
+				o.Inconclusive = true
+				o.probe("stream with an event at the buffer limit (left to C20)")
+				return
+			}
+			if d >= limit {
+				a.tooLong = true
+				a.ref = RefInterpret(a.stream[:cut], last, true)
+				if n := len(a.reads); n > 0 {
+					a.ended = a.reads[n-1].at
+				}
+				o.probe("event beyond the buffer limit ends the connection")
+			}
 		}
 		evs := a.ref.Events
-		clean := a.endKind == 0 && a.delivered == len(a.stream) && a.cancelledAt < 0
+		clean := a.endKind == 0 && a.delivered == len(a.stream) && a.cancelledAt < 0 && !a.tooLong
 		if a.ref.FlushedAtEOF && !clean {
 			evs = evs[:len(evs)-1]
 		}
@@ -1278,7 +1313,7 @@ func (a *attemptRec) expectedEvents() []RefEvent {
 		return nil
 	}
 	evs := a.ref.Events
-	clean := a.endKind == 0 && a.delivered == len(a.stream) && a.cancelledAt < 0
+	clean := a.endKind == 0 && a.delivered == len(a.stream) && a.cancelledAt < 0 && !a.tooLong
 	if a.ref.FlushedAtEOF && !clean {
 		evs = evs[:len(evs)-1]
 	}
@@ -1299,12 +1334,6 @@ func (w *clientWorld) checkEvents() {
 		got = append(got, e.ev)
 	}
 	// a buffer limit may legitimately cut a stream short (C20)
-	if w.bufSize > 0 && w.bufSize < 1<<16 {
-		if !isPrefix(got, want) {
-			w.o.violate("C01", "events", "Connection dispatched %s, want a prefix of %s", describeEvents(got), describeEvents(want))
-		}
-		return
-	}
 	if !eventsEqual(got, want) {
 		w.o.violate("C01", "events", "Connection over %d attempts dispatched %s, want %s", len(w.attempts), describeEvents(got), describeEvents(want))
 	}
@@ -1312,7 +1341,7 @@ func (w *clientWorld) checkEvents() {
 
 func (w *clientWorld) checkC10() {
 	o := w.o
-	smallBuf := w.bufSize > 0 && w.bufSize < 1<<16
+	smallBuf := false // events beyond a small limit are modelled (tooLong), sizes at the limit are inconclusive
 	want := ""
 	for i, a := range w.attempts {
 		hdr := a.lastID
@@ -1461,8 +1490,11 @@ func (w *clientWorld) checkC11() {
 		if la.cancelledAt >= 0 {
 			return
 		}
-		if w.bufSize > 0 && errors.Is(err, bufio.ErrTooLong) {
-			return // an event beyond the configured buffer: C20's territory
+		if la.tooLong {
+			if !errors.Is(err, bufio.ErrTooLong) {
+				o.violate("C11", "read-error-identity", "attempt #%d ended at an event beyond the buffer limit (%d bytes), Connect returned %v, want bufio.ErrTooLong inside *ConnectionError", la.n, w.limit, err)
+			}
+			return
 		}
 		unterminated := RefInterpret(la.stream[:la.delivered], "", true).Unterminated
 		switch la.endKind {
